@@ -88,6 +88,91 @@ def build_format(spec):
     return base
 
 
+def _add_elements(b, level):
+    """add the elements of `level` to the builder `b`; an addition the builder rejects is skipped (it leaves the builder
+    unchanged: C06) and counted"""
+    from clikit.api.args.format.argument import Argument
+    from clikit.api.args.format.command_name import CommandName
+    from clikit.api.args.format.option import Option
+    rejected = 0
+    for c in level.get("cmds", []):
+        try:
+            b.add_command_name(CommandName(c["name"], list(c.get("aliases", []))))
+        except Exception:  # noqa
+            rejected += 1
+    for a in level.get("args", []):
+        try:
+            b.add_argument(Argument(a["name"], arg_flags(a["mode"], a["type"], a["nullable"]), default=dec(a.get("default"))))
+        except Exception:  # noqa
+            rejected += 1
+    for o in level.get("opts", []):
+        kw = {}
+        if o["mode"] != "flag":
+            kw["default"] = dec(o.get("default"))
+        try:
+            b.add_option(Option(o["long"], o.get("short"), opt_flags(o["mode"], o["type"], o["nullable"]), **kw))
+        except Exception:  # noqa
+            rejected += 1
+    return rejected
+
+
+def build_format_reused(spec, ext):
+    """the format of `spec`, taken from a builder that is USED FURTHER afterwards: the last level's builder hands out
+    the format (`builder.format`), then receives the elements of `ext` (a level dict) and hands out a second, richer
+    format - one builder deriving the formats of two commands.  Returns (format, its flattened listing as it was
+    when it was taken, the second format, number of rejected additions)."""
+    from clikit.api.args.format.args_format_builder import ArgsFormatBuilder
+    base = None
+    levels = spec["levels"]
+    for level in levels[:-1]:
+        b = ArgsFormatBuilder(base)
+        _add_elements(b, level)
+        base = b.format
+    b = ArgsFormatBuilder(base)
+    _add_elements(b, levels[-1])
+    fmt = b.format
+    flat_taken = flatten(fmt)
+    rejected = _add_elements(b, ext)
+    richer = b.format
+    return fmt, flat_taken, richer, rejected
+
+
+def gen_ext(rng, spec, unknown_names=(("nosuchopt", "Y"), ("unknown", "z"))):
+    """elements a builder can still take after the format of `spec` was taken from it (argument rules respected:
+    nothing after a multi-valued argument, no required argument after an optional one); the option names include the
+    ones the fault generators use as UNKNOWN options of `spec`"""
+    cmds, args, opts = spec_flat(spec)
+    ext_args = []
+    if not (args and args[-1]["mode"].startswith("multi")):
+        has_optional = any(a["mode"] == "optional" for a in args)
+        for i in range(rng.choice([1, 1, 2])):
+            mode = rng.choice(["optional", "multi"] if has_optional else
+                              ["required", "required", "optional", "multi", "multi_required"])
+            ty = rng.choice(TYPES)
+            a = {"name": "x%d" % (i + 1), "mode": mode, "type": ty, "nullable": rng.random() < 0.3}
+            if mode in ("optional", "multi"):
+                a["default"] = enc(default_for(rng, ty, mode == "multi"))
+            ext_args.append(a)
+            if mode.startswith("multi"):
+                break
+            has_optional = has_optional or mode == "optional"
+    used_long = set(o["long"] for o in opts)
+    used_short = set(o.get("short") for o in opts)
+    pool = [(ln, sh) for ln, sh in list(unknown_names) + list(zip(LONGS, SHORTS)) if ln not in used_long]
+    ext_opts = []
+    for ln, sh in rng.sample(pool, min(len(pool), rng.choice([0, 1, 1, 2]))):
+        mode = rng.choice(["flag", "flag", "required", "optional", "multi"])
+        ty = rng.choice(TYPES) if mode != "flag" else "string"
+        o = {"long": ln, "short": sh if sh not in used_short else None, "mode": mode, "type": ty, "nullable": False}
+        used_short.add(sh)
+        if mode != "flag":
+            o["default"] = enc(default_for(rng, ty, mode == "multi"))
+        ext_opts.append(o)
+    # pending finding, see report: no command names among the later additions (a format taken from a builder shares the
+    # builder's command-name list on the unchanged tree)
+    return {"cmds": [], "args": ext_args, "opts": ext_opts}
+
+
 def _type_of_flags(obj, cls):
     fl = obj.flags
     if fl & cls.BOOLEAN:
